@@ -53,6 +53,9 @@ pub struct State {
     pub batch_exec: usize,
     /// driver monitor invoked (under the lock) when a thread is granted a labelled step
     pub on_step: Option<Box<dyn FnMut(usize, &'static str) + Send>>,
+    /// driver monitor invoked (under the lock) when a thread *arrives* at a labelled point,
+    /// i.e. right after the step that precedes the point
+    pub on_arrive: Option<Box<dyn FnMut(usize, &'static str) + Send>>,
     /// kernel thread ids of the controlled threads (for the parked-thread probe)
     pub os_tid: Vec<i32>,
     /// the thread was granted a step that may park inside std
@@ -89,6 +92,7 @@ pub fn sched() -> &'static Arc<Sched> {
                 batch_channel: 0,
                 batch_exec: 0,
                 on_step: None,
+                on_arrive: None,
                 os_tid: vec![],
                 may_block: vec![],
                 watchdog: false,
@@ -124,6 +128,7 @@ pub fn begin(tape: Tape, n: usize) {
     s.blocked_at_end.clear();
     s.step_cap_hit = false;
     s.on_step = None;
+    s.on_arrive = None;
     TID.with(|t| t.set(Some(0)));
 }
 
@@ -133,6 +138,7 @@ pub fn end() -> (Tape, Vec<(u8, &'static str)>, Vec<usize>, u64, bool) {
     s.active = false;
     s.over = true;
     s.on_step = None;
+    s.on_arrive = None;
     sched().cv.notify_all();
     TID.with(|t| t.set(None));
     (
@@ -146,6 +152,10 @@ pub fn end() -> (Tape, Vec<(u8, &'static str)>, Vec<usize>, u64, bool) {
 
 pub fn set_monitor(f: Box<dyn FnMut(usize, &'static str) + Send>) {
     lock().on_step = Some(f);
+}
+
+pub fn set_arrival_monitor(f: Box<dyn FnMut(usize, &'static str) + Send>) {
+    lock().on_arrive = Some(f);
 }
 
 pub fn set_batch(channel: usize, exec: usize) {
@@ -346,6 +356,10 @@ pub fn point(label: &'static str) {
         return;
     }
     s.threads[me] = Status::Runnable;
+    if let Some(mut f) = s.on_arrive.take() {
+        f(me, label);
+        s.on_arrive = Some(f);
+    }
     yield_from(s, me, label);
 }
 
@@ -465,6 +479,9 @@ impl calloop::verif::Hooks for ThreadHooks {
     }
     fn point(&self, label: &'static str) {
         point(label)
+    }
+    fn after_wait(&self) {
+        point("wait.exit")
     }
     fn batch_limit(&self, which: &'static str, default: usize) -> usize {
         let s = lock();
